@@ -300,8 +300,8 @@ theorem cmpRel_relBOp (o : RelOp) (x y : Int) : cmpRel (relBOp o) x y ↔ o.Hold
 
 open WuffsVerif.Axioms in
 /--
-**reason_sound** (DESIGN §2 C02 `reason_impl_sound`, generic over the axiom).  If the
-axiom is a valid theorem over the integers, every fact of the situation is true, and
+**reason_sound** (DESIGN §2 C02 `reason_impl_sound`, generic over the axiom).  If the axiom
+is a valid theorem over the integers, every fact of the situation is true, and
 the reason procedure generated for it accepts `assert cond via "…"(args)`, then the
 asserted condition is true: the procedure only succeeds when the condition is an
 instance of the claim and every instantiated requirement was proved.
